@@ -62,6 +62,11 @@ ASSUMPTIONS = [
     "Tree.from_list on a listing whose hash field holds a number/boolean (only producible by re-reading "
     "as_bytes(with_meta=True) with hash_name=None) stores the odd value; the model's hash values are text, it answers "
     "error 99 and that one observable is not compared on such cases (counted in input_distribution)",
+    "Tree.ls / Tree.get are judged by the oracle only (the model has no such query); ls is called with a tuple - the "
+    "default ls() / ls(None) raises TypeError inside pygtrie on the current code (reported, not part of C03)",
+    "a file name that is not valid UTF-8 reaches the code as lone surrogates: build without State gives the canonical "
+    "identifier of the surrogate-escaped name, build with the SQLite State raises UnicodeEncodeError (recorded as an "
+    "observation, outside Wf)",
     "names are Unicode scalar values (no lone surrogates) for injectivity/round-trip; the surrogate collision is "
     "stated as C03_inj_surrogates_refuted and reproduced on the real encoder",
 ]
@@ -79,6 +84,75 @@ SIBLINGS = [("d", "d.e"), ("a", "a-b"), ("a", "a b"), ("data", "data.v2"), ("x",
 TWINS = [("e\u0301", "\u00e9"), ("a\u0308", "\u00e4"), ("o\u0323", "\u1ecd"), ("\u1112\u1161\u11ab", "\ud55c"),
          ("cafe\u0301.txt", "caf\u00e9.txt"), ("A\u030a", "\u00c5")]
 PARTS += [x for pair in SIBLINGS + TWINS for x in pair if x not in PARTS]
+# names asked for by tools/COVERAGE_AUDIT.md (each also appears in a fixed case of every run)
+AUDIT_NAMES = ["we\\ird.txt", "sp ace", ".hidden", "\u0444\u0430\u0439\u043b.txt", "imgs", "imgs_raw", "imgs.bak",
+               "L" * 200, "Readme", "readme", "B", "Z", "z", "\\u00e9", "tab\there"]
+PARTS += [x for x in AUDIT_NAMES if x not in PARTS and len(x) < 50]
+EMPTY_LISTING_OID = "d751713988987e9331980363e24189ce.dir"
+
+import collections
+import unicodedata
+
+DIM: collections.Counter = collections.Counter()
+
+
+def name_dims(keys, prefix="name"):
+    """which name dimensions of the audit list a set of keys (lists of parts) has; counted once per case"""
+    parts = [p for k in keys for p in k]
+    allp = set(parts)
+    dirs = {p for k in keys for p in k[:-1]}
+    leaves = {k[-1] for k in keys if k}
+    d = set()
+    for p in allp:
+        if "\\" in p:
+            d.add("backslash")
+        if " " in p:
+            d.add("space")
+        if p.startswith("."):
+            d.add("leading-dot")
+        if any("\u0400" <= c <= "\u04ff" for c in p):
+            d.add("cyrillic")
+        if any("\u3040" <= c <= "\u9fff" for c in p):
+            d.add("cjk")
+        if any(ord(c) > 0xFFFF for c in p):
+            d.add("non-bmp(emoji)")
+        if any(0xD800 <= ord(c) <= 0xDFFF for c in p):
+            d.add("lone-surrogate")
+        elif unicodedata.normalize("NFC", p) != p:
+            d.add("non-NFC")
+            if unicodedata.normalize("NFC", p) in allp:
+                d.add("non-NFC-next-to-composed-twin")
+        if p.endswith(".dir"):
+            d.add("ends-with-.dir")
+        if len(p) == 1:
+            d.add("1-char")
+        if len(p) >= 200:
+            d.add("200-chars")
+        if any(ord(c) < 0x20 for c in p):
+            d.add("control-char")
+        if "\x7f" in p:
+            d.add("DEL")
+        if '"' in p:
+            d.add("quote")
+        if "\\u" in p:
+            d.add("literal-backslash-u-text")
+        if any(q != p and q.startswith(p) and q[len(p)] < "/" for q in allp if len(q) > len(p)) and p in dirs:
+            d.add("sibling-prefix-sorting-before-slash")
+        if any(q != p and q.startswith(p) for q in allp):
+            d.add("sibling-string-prefix")
+    if any(a != b and a.lower() == b.lower() for a in dirs for b in leaves):
+        d.add("file-and-dir-differ-only-in-case")
+    if any(c.isupper() for p in allp for c in p[:1]) and any(c.islower() for p in allp for c in p[:1]):
+        d.add("upper-and-lower-case-initials(locale-order)")
+    if any(ord(c) > 0xFFFF for p in allp for c in p) and any(0xE000 <= ord(c) <= 0xFFFF for p in allp for c in p):
+        d.add("code-point-order-differs-from-utf16-order")
+    if keys and max(len(k) for k in keys) >= 4:
+        d.add("depth>=4")
+    for x in d:
+        DIM[f"{prefix}:{x}"] += 1
+    return d
+
+
 BAD_PARTS = ["a/b", "", "/", "\ud83d", "\ude00", "\ud83d\ude00", "x/", "\udc80"]
 HEX = "0123456789abcdef"
 
@@ -218,6 +292,8 @@ def _mk_tree(adds, order=None):
     for e in seq:
         meta = None if e.get("meta") is None else Meta(**e["meta"])
         hi = None if e.get("hash") is None else HashInfo(e["hash"][0], e["hash"][1])
+        if hi is not None and e.get("obj_name"):
+            hi.obj_name = e["obj_name"]  # the label DVC attaches; not part of the identifier
         t.add(tuple(e["key"]), meta, hi)
     return t
 
@@ -277,7 +353,10 @@ def tree_oracle(case):
     if no_overwrite and distinct_rp:
         idx = sorted(range(len(adds)), key=lambda i: tuple(adds[i]["key"]))
         # ascending and descending order of the key tuples are always among the insertion orders tried
-        for order in [idx, idx[::-1], *case.get("perms", [])]:
+        orders = [idx, idx[::-1], *case.get("perms", [])]
+        if 1 < len(adds) <= 4:
+            orders += [list(p) for p in itertools.permutations(range(len(adds)))]  # every insertion order
+        for order in orders:
             t = _mk_tree(adds, order)
             b = t.as_bytes()
             t.digest()
@@ -318,6 +397,16 @@ def tree_oracle(case):
             t2.digest()
             if t2.oid != oid0:
                 problems.append(("C03:roundtrip-oid", f"re-parsed listing has oid {t2.oid}, original {oid0}"))
+    # construction route: from_list of the listing in any order of its records
+    if wf and distinct_rp:
+        lst = t0.as_list()
+        for variant in (lst[::-1], sorted(lst, key=lambda d: (len(d["relpath"]), d["relpath"]))):
+            t3 = Tree.from_list([dict(d) for d in variant])
+            t3.digest()
+            if t3.oid != oid0:
+                problems.append(("C03:from-list-order-dependent",
+                                 f"from_list of the same records in another order gives {t3.oid}, the tree has {oid0}"))
+                break
     # sub-directories
     if wf:
         odb = _DummyOdb()
@@ -571,6 +660,20 @@ def run_tree_stream(ctx, cases):
             small = shrink_tree(case, sig) if sig != "C03:collision" else case
             ctx.oracle_fail(sig, what, small)
         ctx.case(case, nontrivial=len(fd) >= 2)
+        name_dims([list(k) for k in fd], "tree-name")
+        DIM["tree:entries=%s" % ("0" if not fd else "1" if len(fd) == 1 else "2-7" if len(fd) <= 7 else "8-99" if len(fd) < 100 else "100+")] += 1
+        if any(e.get("obj_name") for e in case["adds"]):
+            DIM["tree:HashInfo-with-obj_name-label"] += 1
+        if any(e.get("hash") and e["hash"][1] == EMPTY_LISTING_OID for e in case["adds"]):
+            DIM["tree:value-equal-to-the-empty-listing-oid"] += 1
+        if len({tuple(e["hash"]) for e in fd.values() if e.get("hash")}) < sum(1 for e in fd.values() if e.get("hash")):
+            DIM["tree:two-entries-with-identical-digest"] += 1
+        for alg in {e["hash"][0] for e in fd.values() if e.get("hash")}:
+            DIM[f"tree:hash-name={alg or '(empty)'}"] += 1
+        if () in fd:
+            DIM["tree:entry-at-root-key-()"] += 1
+        if 1 < len(case["adds"]) <= 4:
+            DIM["tree:every-insertion-order-tried"] += 1
         ctx.count("tree:" + ("malformed" if case.get("bad") else "valid"))
         ctx.count(f"tree:entries={min(len(fd), 7)}")
         if len(fd) != len(case["adds"]):
@@ -614,6 +717,46 @@ def near_collision_cases(rng):
         adds = [{"key": k, "hash": ["md5", h], "meta": None} for k, h in ents]
         out.append({"kind": "tree", "adds": adds, "perms": [list(range(len(adds)))[::-1]], "absent": [["q"]],
                     "hash_name": None, "bad": False})
+    return out
+
+
+def audit_tree_cases():
+    """fixed cases for the dimensions of tools/COVERAGE_AUDIT.md that concern Tree objects"""
+    h = ["%032x" % (0x1111 * (i + 1) + i) for i in range(20)]
+
+    def case(ents, bad=False, hn=None):
+        adds = [{"key": k, "hash": hv, "meta": m, **({"obj_name": on} if on else {})} for k, hv, m, on in ents]
+        n = len(adds)
+        return {"kind": "tree", "adds": adds, "perms": [list(range(n))[::-1]], "absent": [["nope"]],
+                "hash_name": hn, "bad": bad, "audit": True}
+
+    out = []
+    # names
+    out.append(case([(["we\\ird.txt"], ["md5", h[0]], None, None), ([".hidden", "sp ace"], ["md5", h[1]], None, None),
+                     (["\u0444\u0430\u0439\u043b.txt"], ["md5", h[2]], None, None), (["L" * 200], ["md5", h[3]], None, None),
+                     (["L" * 200 + "x", "y"], ["md5", h[4]], None, None), (["\\u00e9"], ["md5", h[5]], None, None),
+                     (["\u00e9"], ["md5", h[6]], None, None)]))
+    out.append(case([(["imgs", "a"], ["md5", h[0]], None, None), (["imgs_raw", "a"], ["md5", h[1]], None, None),
+                     (["imgs.bak", "a"], ["md5", h[2]], None, None), (["imgs-2", "a"], ["md5", h[3]], None, None)]))
+    out.append(case([(["Readme"], ["md5", h[0]], None, None), (["readme", "x"], ["md5", h[1]], None, None),
+                     (["README.md"], ["md5", h[2]], None, None)]))
+    out.append(case([(["B"], ["md5", h[0]], None, None), (["a"], ["md5", h[1]], None, None), (["Z"], ["md5", h[2]], None, None),
+                     (["z"], ["md5", h[3]], None, None), (["\uffff"], ["md5", h[4]], None, None),
+                     (["\U00010000"], ["md5", h[5]], None, None), (["\u00e9"], ["md5", h[6]], None, None)]))
+    out.append(case([(["a", "b", "c", "d", "e", "f.txt"], ["md5", h[0]], None, None),
+                     (["a", "b", "c", "d", "g.txt"], ["md5", h[0]], None, None), (["a", "dup"], ["md5", h[1]], None, None),
+                     (["dup"], ["md5", h[1]], None, None)]))
+    # identifiers: obj_name labels on file ids and on a nested directory id; the same value under three
+    # algorithm names; values ending in every hex digit; a value equal to the empty listing's identifier
+    out.append(case([(["f"], ["md5", h[0]], {"size": 3}, "data/f"), (["sub"], ["md5", h[1] + ".dir"], {"isdir": True}, "data/sub"),
+                     (["g"], ["md5", h[2]], None, None)]))
+    for alg in ("md5", "md5-dos2unix", "sha256"):
+        out.append(case([(["same"], [alg, h[7]], None, None)]))
+    out.append(case([([c], ["md5", ("%032x" % (i * 0x1111111))[:31] + c], None, None) for i, c in enumerate(HEX)]))
+    out.append(case([(["sub"], ["md5", EMPTY_LISTING_OID], {"isdir": True}, None), (["f"], ["md5", EMPTY_LISTING_OID[:32]], None, None)]))
+    # shapes: one entry; an entry at the ROOT key ()
+    out.append(case([(["only"], ["md5", h[0]], {"size": 0}, None)]))
+    out.append(case([([], ["md5", h[0]], None, None), (["x"], ["md5", h[1]], None, None)], bad=True))
     return out
 
 
@@ -680,6 +823,24 @@ def run_history(ops):
             continue
         p = tuple(op.get("prefix", ()))
         under = {k: e for k, e in cur.items() if k[:len(p)] == p}
+        if op["op"] == "get":
+            got = t.get(p)
+            e = cur.get(p)
+            want_g = None if e is None else emitted(e.get("hash"))
+            got_g = None if got is None else (emitted((got[1].name, got[1].value)) if got[1] is not None else None)
+            if (got is None) != (e is None) or got_g != want_g:
+                problems.append(("C03:history-get", f"after operation {i} get({p!r}) = {got!r}, the tree holds {want_g!r}"))
+            continue
+        if op["op"] == "ls":
+            want_ls = sorted({k[len(p)] for k in under if len(k) > len(p)})
+            try:
+                got_ls = sorted(t.ls(p))  # NB: the default ls() / ls(None) raises TypeError in pygtrie (reported)
+            except KeyError:
+                got_ls = None
+            if got_ls != (want_ls if (under or not p) else None):
+                problems.append(("C03:history-ls", f"after operation {i} ls({p!r}) = {got_ls}, the names directly below it "
+                                                   f"in the tree's current entries are {want_ls}"))
+            continue
         want_pairs = {(k, emitted(e.get("hash"))) for k, e in under.items()}
         if op["op"] == "get_obj":
             o = t.get_obj(odb, p)
@@ -750,7 +911,16 @@ def gen_history(rng):
         k = rng.choice(present) if present else [pool[0]]
         p = k[:rng.randint(0, len(k))] if rng.random() < 0.9 else [rng.choice(pool), "zz"]
         r = rng.random()
-        return {"op": "get_obj", "prefix": p} if r < 0.5 else {"op": "filter", "prefix": p} if r < 0.85 else {"op": "items"}
+        if r < 0.4:
+            return {"op": "get_obj", "prefix": p}
+        if r < 0.65:
+            return {"op": "filter", "prefix": p}
+        if r < 0.78:
+            return {"op": "items"}
+        if r < 0.9:
+            # ls of a directory prefix (or the root)
+            return {"op": "ls", "prefix": k[:rng.randint(0, len(k) - 1)]}
+        return {"op": "get", "prefix": k if rng.random() < 0.7 else p}
 
     present = []
     ops = []
@@ -830,6 +1000,16 @@ def fixed_histories():
                                     {"op": "items"}]},
         {"kind": "history", "ops": [a(["docs", "cafe\u0301.txt"], h[0]), a(["docs", "caf\u00e9.txt"], h[1]),
                                     {"op": "get_obj", "prefix": ["docs"]}, {"op": "filter", "prefix": ["docs"]}]},
+        {"kind": "history", "ops": [a(["d", "x"], h[0]), a(["d", "s", "y"], h[1]), a(["t"], h[2]), {"op": "ls", "prefix": []},
+                                    {"op": "ls", "prefix": ["d"]}, {"op": "get", "prefix": ["d", "x"]}, a(["d", "x"], h[3]),
+                                    a(["d", "z"], h[0]), {"op": "get", "prefix": ["d", "x"]}, {"op": "ls", "prefix": ["d"]},
+                                    {"op": "get", "prefix": ["nope"]}, {"op": "get_obj", "prefix": ["d"]}]},
+        {"kind": "history", "ops": [a(["we\\ird.txt"], h[0]), a([".hidden", "sp ace"], h[1]), a(["Readme"], h[2]),
+                                    a(["readme", "x"], h[3]), a(["L" * 200], h[0]), a(["\u0444\u0430\u0439\u043b", "\\u00e9"], h[1]),
+                                    {"op": "ls", "prefix": []}, {"op": "get_obj", "prefix": ["readme"]},
+                                    a(["readme", "x"], h[0]), {"op": "get_obj", "prefix": ["readme"]},
+                                    {"op": "filter", "prefix": [".hidden"]}, {"op": "get", "prefix": ["Readme"]},
+                                    {"op": "get_obj", "prefix": []}]},
         {"kind": "history", "ops": [a(["x"], h[0]), {"op": "items"}, a(["x"], h[1]), {"op": "items"},
                                     {"op": "get_obj", "prefix": []}, {"op": "get_obj", "prefix": ["x"]}]},
     ]
@@ -851,7 +1031,10 @@ def run_history_stream(ctx, cases):
         ctx.count("history:" + ("query-after-replace-after-query" if stale else "other"))
         ctx.count(f"history:ops={min(len(ops), 12)}")
         exp = vL([vL(answers), _py_tree_val(t), vB(t.oid)])
-        items.append((case, clist([_op_term(op) for op in ops]), exp))
+        for op in ops:
+            DIM["history:op=" + op["op"]] += 1
+        name_dims([op["key"] for op in ops if op["op"] == "add"], "history-name")
+        items.append((case, clist([_op_term(op) for op in ops if op["op"] not in ("ls", "get")]), exp))
     return items
 
 
@@ -967,7 +1150,34 @@ def run_build(ctx, files, cfg, workdir, delays):
             p_build_files, p_get_hashes, p_hash_files, p_hash_file)
         bmod._walk_files = p_walk_files
         try:
-            _, meta, obj = bmod.build(odb, spelled, localfs, "md5", checksum_jobs=cfg["jobs"])
+            flag = cfg.get("flag")
+            kw = {}
+            alg = "md5"
+            if flag == "dry_run":
+                kw["dry_run"] = True
+            elif flag == "upload":
+                kw["upload"] = True
+            elif flag == "callback":
+                from fsspec.callbacks import Callback
+
+                kw["callback"] = Callback()
+            elif flag == "name=md5-dos2unix":
+                alg = "md5-dos2unix"
+            elif flag == "ignore":
+                drop = {os.path.join(src, *r.split("/")) for r in cfg["ignored"]}
+
+                class _Ignore:
+                    def walk(self, fs, path, **kwargs):
+                        for root, dirs, fnames in fs.walk(path, **kwargs):
+                            yield root, dirs, [f for f in fnames if os.path.join(root, f) not in drop]
+
+                    def find(self, fs, path):
+                        for root, _, fnames in self.walk(fs, path):
+                            for f in fnames:
+                                yield os.path.join(root, f)
+
+                kw["ignore"] = _Ignore()
+            _, meta, obj = bmod.build(odb, spelled, localfs, alg, checksum_jobs=cfg["jobs"], **kw)
         finally:
             bmod._build_files, bmod._get_hashes, bmod._hash_files, bmod.hash_file = o_bf, o_gh, o_hf, o_hash
             bmod._walk_files = o_wf
@@ -998,7 +1208,7 @@ def build_item(files, cfg, obs):
         walk_t.append(cpair(f"(rel_key_of {cbytes(obs['spelled'])} {cbytes(d['root'])})", clist(fs_t)))
         dones_t.append(clist([cbytes(x) for x in d["yield"]]))
     conf = "{| c_name := %s; c_threshold := %s; c_jobs := %s |}" % (
-        cbytes("md5"), cN(cfg["threshold"]), copt(cfg["jobs"], cN))
+        cbytes("md5-dos2unix" if cfg.get("flag") == "name=md5-dos2unix" else "md5"), cN(cfg["threshold"]), copt(cfg["jobs"], cN))
     inp = cpair(conf, cpair(clist(dones_t), clist(walk_t)))
     exp = vL([
         vL([vB(obs["oid"])]),
@@ -1048,9 +1258,16 @@ def all_configs():
             for s in ("none", "cold", "warm", "foreign")]
 
 
-def run_build_stream(ctx, dirs, per_dir):
+def run_build_stream(ctx, dirs, per_dir, all_flags=False):
     items = []
     for files in dirs:
+        name_dims([r.split("/") for r in files], "build-name")
+        contents = list(files.values())
+        if len(set(contents)) < len(contents):
+            DIM["build:two-files-with-identical-content"] += 1
+        if "" in contents:
+            DIM["build:zero-length-file"] += 1
+        DIM["build:files=%s" % ("0" if not files else "1" if len(files) == 1 else "2-9" if len(files) < 10 else "10-99" if len(files) < 100 else "100+")] += 1
         work = ctx.fresh("build")
         tree = {rel: _content(c) for rel, c in files.items()}
         order = list(tree.items())
@@ -1071,6 +1288,21 @@ def run_build_stream(ctx, dirs, per_dir):
         for spell in (("/", "//") if per_dir is None else (ctx.rng.choice(["/", "//"]),)):
             base = dict(ctx.rng.choice(cfgs))
             base["spell"] = spell
+            chosen.append(base)
+        # every other flag of build(): dry_run, upload, a non-default callback, the legacy algorithm name
+        # (only for contents without CR LF, where md5-dos2unix and md5 coincide), an ignore filter
+        flags = ["dry_run", "upload", "callback"]
+        if not any(b"\r\n" in b for b in tree.values()):
+            flags.append("name=md5-dos2unix")
+        if len(files) >= 2:
+            flags.append("ignore")
+        for flag in (flags if per_dir is None or all_flags else [ctx.rng.choice(flags)]):
+            base = dict(ctx.rng.choice([c for c in cfgs if c["state"] in ("none", "cold")]))
+            base["flag"] = flag
+            if flag == "name=md5-dos2unix":
+                base["state"] = "none"
+            if flag == "ignore":
+                base["ignored"] = sorted(ctx.rng.sample(sorted(files), max(1, len(files) // 3)))
             chosen.append(base)
         if files:
             # a cache warmed by a build that raced with a writer
@@ -1115,14 +1347,29 @@ def run_build_stream(ctx, dirs, per_dir):
             # known to be instantiated by real executions and not only by the Coq Examples
             ctx.count("build:hypotheses-of-C03_schedule-" + ("hold" if _walk_ok(files, cfg, obs) else "violated")
                       + ("(poisoned on purpose)" if cfg["state"] == "poisoned" else ""))
+            DIM["build:flag=" + (cfg.get("flag") or "(defaults)")] += 1
+            DIM["build:state=" + cfg["state"]] += 1
+            DIM[f"build:jobs={cfg['jobs']}"] += 1
+            DIM[f"build:large_file_threshold={cfg['threshold']}"] += 1
+            if cfg.get("spell"):
+                DIM["build:path-with-trailing-separator"] += 1
+            if cfg.get("walk"):
+                DIM["build:walk-order-imposed=" + cfg["walk"]] += 1
+            want_all = want
+            kept = files
+            if cfg.get("flag") == "ignore":
+                kept = {r: c for r, c in files.items() if r not in cfg["ignored"]}
+                want = impl.dir_oid([(r, impl.md5hex(_content(c))) for r, c in kept.items()])
             if cfg["state"] != "poisoned":  # poisoned: hypothesis StateSound violated on purpose, correspondence only
-                oids[json.dumps(cfg, sort_keys=True)] = obs["oid"]
+                if cfg.get("flag") != "ignore":
+                    oids[json.dumps(cfg, sort_keys=True)] = obs["oid"]
                 if obs["oid"] != want:
                     ctx.oracle_fail("C03:build-oid-depends-on-configuration",
                                     f"build under {cfg} gives {obs['oid']}, the canonical identifier of the directory is {want}; "
                                     f"listing {obs['listing']!r}", shrink_build(ctx, files, cfg, want))
-                if obs["nfiles"] != len(files):
-                    ctx.oracle_fail("C03:build-nfiles", f"nfiles {obs['nfiles']} for {len(files)} files under {cfg}", case)
+                if obs["nfiles"] != len(kept):
+                    ctx.oracle_fail("C03:build-nfiles", f"nfiles {obs['nfiles']} for {len(kept)} files under {cfg}", case)
+            want = want_all
             inp, exp = build_item(files, cfg, obs)
             items.append((case, inp, exp))
         if len(set(oids.values())) > 1:
@@ -1181,7 +1428,8 @@ def shrink_build(ctx, files, cfg, want):
             try:
                 impl.mk_tree(os.path.join(work, "src"), {r: _content(c) for r, c in cand.items()})
                 obs = run_build(ctx, cand, cfg, work, {})
-                w = impl.dir_oid([(r, impl.md5hex(_content(c))) for r, c in cand.items()])
+                w = impl.dir_oid([(r, impl.md5hex(_content(c))) for r, c in cand.items()
+                                  if not (cfg.get("flag") == "ignore" and r in cfg.get("ignored", []))])
                 bad = obs["oid"] != w
             except Exception:  # noqa: BLE001
                 bad = False
@@ -1235,7 +1483,7 @@ def store_routes(ctx, files, empty_dirs=()):
         odb = impl.local_odb(os.path.join(work, "cache"))
         staging, _, obj = hbuild(odb, src, localfs, "md5")
         try:
-            res = transfer(staging, odb, {obj.hash_info}, hardlink=False)
+            res = transfer(staging, odb, {obj.hash_info}, hardlink=False, shallow=False)
             if res.failed:
                 problems.append(("C03:store-reload", f"transfer of {obj.oid} from staging to the store failed: {res.failed}"))
         except Exception as exc:  # noqa: BLE001  (transfer re-loads the listing it moves)
@@ -1261,6 +1509,34 @@ def store_routes(ctx, files, empty_dirs=()):
             if t2.oid != obj.oid:
                 problems.append(("C03:store-reload", f"the listing re-loaded by {name}() digests to {t2.oid}, "
                                                     f"it was stored as {obj.oid}"))
+
+        # ---- (1b) checkout -> rebuild: through the file system with every link type; one State object is
+        # shared by the stores of all three rounds
+        from dvc_data.hashfile.checkout import checkout
+        from dvc_data.hashfile.state import State
+
+        st = State(root_dir=work, tmp_dir=os.path.join(work, "state"))
+        try:
+            for link in ("copy", "hardlink", "symlink"):
+                odb_l = impl.local_odb(os.path.join(work, "cache"), type=[link], state=st)
+                out = os.path.join(work, "out-" + link)
+                try:
+                    checkout(out, localfs, hload(odb_l, obj.hash_info), odb_l, state=st)
+                    if not os.path.isdir(out):
+                        if digests:
+                            problems.append(("C03:checkout-rebuild", f"checkout ({link}) of {obj.oid} created no directory"))
+                        continue
+                    _, _, again = hbuild(odb_l, out, localfs, "md5")
+                except Exception as exc:  # noqa: BLE001
+                    problems.append(("C03:checkout-rebuild", f"checkout ({link}) of {obj.oid} and re-build raised {exc!r}"))
+                    continue
+                DIM[f"routes:checkout-{link}-then-rebuild(State-shared-by-the-three-stores)"] += 1
+                if again.oid != canon(()):
+                    problems.append(("C03:checkout-rebuild",
+                                     f"the directory checked out from {obj.oid} with link type {link} re-builds to {again.oid}; "
+                                     f"canonical identifier {canon(())}"))
+        finally:
+            st.close()
 
         # ---- (2) data index: save, save again, build_tree for every prefix
         dirs = {()}
@@ -1305,6 +1581,9 @@ def run_routes_stream(ctx, specs):
         nested = any("/" in r for r in files) or bool(empty_dirs)
         ctx.case(case, nontrivial=nested or not files)
         ctx.count("routes:" + ("empty-listing" if not files else "nested" if nested else "flat"))
+        DIM["routes:" + ("empty-directory" if not files and not empty_dirs else "only-empty-sub-directories" if not files
+                         else "nested" if nested else "flat")] += 1
+        DIM["routes:store-reload+index-save-twice+build_tree-per-prefix"] += 1
         for sig in dict.fromkeys(s for s, _ in problems):
             what = next(w for s, w in problems if s == sig)
             small = dict(files)
@@ -1320,6 +1599,75 @@ def run_routes_stream(ctx, specs):
                     except Exception:  # noqa: BLE001, S112
                         continue
             ctx.oracle_fail(sig, what, {"kind": "routes", "files": small, "empty_dirs": list(empty_dirs)})
+
+
+def undecodable_name_observation(ctx):
+    """a file whose name is not valid UTF-8: os.fsdecode hands the code a str with lone surrogates (surrogateescape).
+    Outside the property's quantifier (Wf: Unicode scalar values); what the code does is recorded, not judged."""
+    from dvc_objects.fs.local import localfs
+
+    from dvc_data.hashfile.build import build as hbuild
+    from dvc_data.hashfile.state import State
+
+    work = ctx.fresh("undecodable")
+    note = {}
+    try:
+        src = os.path.join(work, "src")
+        os.makedirs(os.path.join(src, "d"))
+        raw = os.path.join(os.fsencode(src), b"d", b"\xff\xfe.bin")
+        with open(raw, "wb") as f:
+            f.write(b"x")
+        with open(os.path.join(src, "ok.txt"), "wb") as f:
+            f.write(b"y")
+        name = os.fsdecode(b"\xff\xfe.bin")
+        want = ref_oid([("d/" + name, ("md5", impl.md5hex(b"x"))), ("ok.txt", ("md5", impl.md5hex(b"y")))])
+        for label, mk_state in (("no-state", lambda: None), ("sqlite-state", lambda: State(root_dir=work, tmp_dir=os.path.join(work, "st")))):
+            st = mk_state()
+            try:
+                odb = impl.local_odb(os.path.join(work, "cache-" + label), **({"state": st} if st else {}))
+                _, _, obj = hbuild(odb, src, localfs, "md5")
+                listing = obj.as_bytes().decode("ascii")
+                note[label] = {"oid": obj.oid, "equals_canonical_encoding_of_the_surrogate_name": obj.oid == want,
+                               "relpath_as_written": json.loads(listing)[0]["relpath"].encode("unicode_escape").decode()}
+            except Exception as exc:  # noqa: BLE001
+                note[label] = {"raised": type(exc).__name__ + ": " + str(exc)[:120]}
+            finally:
+                if st is not None:
+                    st.close()
+    finally:
+        impl.rm_rf(work)
+    DIM["build-name:undecodable-bytes(lone-surrogates-from-os.fsdecode)"] += 1
+    ctx.extra["undecodable_name_observation"] = note
+    ctx.obligation("observation:undecodable-file-name", True, json.dumps(note)[:600])
+
+
+def foreign_algorithm_observation(ctx):
+    """build(name=sha256 / blake3) of a directory goes through the legacy external-tree path; recorded: does it
+    succeed, is the identifier stable across thread counts, and is it the md5-named canonical one"""
+    from dvc_objects.fs.local import localfs
+
+    from dvc_data.hashfile.build import build as hbuild
+
+    work = ctx.fresh("foreign-alg")
+    note = {}
+    try:
+        src = os.path.join(work, "src")
+        impl.mk_tree(src, {"a": b"1" * 20, "s/b": b"2" * 20, "s/c": b""})
+        for alg in ("sha256", "blake3"):
+            oids = []
+            for jobs in (1, 4):
+                try:
+                    odb = impl.local_odb(os.path.join(work, f"cache-{alg}-{jobs}"))
+                    _, _, obj = hbuild(odb, src, localfs, alg, checksum_jobs=jobs, large_file_threshold=0)
+                    oids.append(f"{obj.hash_info.name}:{obj.hash_info.value}")
+                except Exception as exc:  # noqa: BLE001
+                    oids.append("raised " + type(exc).__name__ + ": " + str(exc)[:80])
+            note[alg] = {"jobs=1": oids[0], "jobs=4": oids[1], "stable": oids[0] == oids[1]}
+    finally:
+        impl.rm_rf(work)
+    ctx.extra["foreign_algorithm_observation"] = note
+    ctx.obligation("observation:build-with-sha256-or-blake3", True, json.dumps(note)[:600])
+    DIM["build:hash-name=sha256/blake3(observed-only)"] += 1
 
 
 # ----------------------------------------------------------------------------------------------
@@ -1387,15 +1735,32 @@ def load_corpus():
 
 def run(ctx):
     _seen_bytes.clear()
+    DIM.clear()
     corpus = load_corpus()
     tree_cases = [c for c in corpus if c.get("kind") == "tree"]
     tree_cases += near_collision_cases(ctx.rng)
+    tree_cases += audit_tree_cases()
     n_valid = ctx.n(85, 900)
     n_bad = ctx.n(22, 240)
     tree_cases += [gen_tree_case(ctx.rng) for _ in range(n_valid)]
     tree_cases += [gen_tree_case(ctx.rng, bad=True) for _ in range(n_bad)]
     t_items = run_tree_stream(ctx, tree_cases)
     surrogate_observation(ctx)
+    if ctx.tier == "thorough":
+        # 1000+ entries: the oracle alone (a Coq literal of this size is out of budget); permutations, metadata
+        # blindness, round trip, from_list in other orders, every sub-directory
+        big = {"kind": "tree", "bad": False, "hash_name": None, "absent": [["nope"]],
+               "adds": [{"key": [f"d{i % 37}", f"s{i % 5}", f"f{i:04d}.bin"] if i % 3 else [f"top{i:04d}"],
+                         "hash": ["md5", "%032x" % (i * 2654435761 % 2 ** 128)],
+                         "meta": {"size": i} if i % 2 else None} for i in range(1200)]}
+        order = list(range(1200))
+        ctx.rng.shuffle(order)
+        big["perms"] = [order]
+        ctx.rng.shuffle(big["adds"])
+        for sig, what in tree_oracle(big):
+            ctx.oracle_fail(sig, what, shrink_tree(big, sig))
+        ctx.case({"kind": "tree", "adds": "1200 generated entries (see harness/props/c03.py)"}, nontrivial=True)
+        DIM["tree:entries=1000+(oracle-only)"] += 1
 
     hist_cases = [c for c in corpus if c.get("kind") == "history"] + fixed_histories()
     hist_cases += [gen_history(ctx.rng) for _ in range(ctx.n(45, 500))]
@@ -1424,12 +1789,34 @@ def run(ctx):
 
     # the empty listing (an empty directory, and one holding only empty sub-directories) goes through the
     # store / index routes in EVERY run, then nested directories, then the generated ones
+    audit_dirs = [
+        # names (tools/COVERAGE_AUDIT.md 1)
+        {"we\\ird.txt": "01", "sp ace": "02", ".hidden": "03", "\u0444\u0430\u0439\u043b.txt": "04",
+         "\u65e5\u672c/\u8a9e.txt": "05", "\U0001F600.bin": "06", "x.dir": "07", "y.dir/z": "08", "imgs/a": "09",
+         "imgs_raw/a": "0a", "imgs.bak/a": "0b", "L" * 200: "0c", 'q"uote': "0d", "\\u00e9": "0e", "\x01ctl": "0f",
+         "\x7f": "10", "tab\there": "11", "cafe\u0301.txt": "12", "caf\u00e9.txt": "13"},
+        {"Readme": "01", "readme/x": "02", "README.md": "03", "B": "04", "a": "05", "Z": "06", "z": "07",
+         "\uffff": "08", "\U00010000": "09", "\u00e9": "0a"},
+        # shapes (2): depth 6 through directories that hold only sub-directories, identical contents within one
+        # directory and across directories, zero-length files, a directory with one file
+        {"a/b/c/d/e/f.txt": "aa", "a/b/c/d/g.txt": "aa", "a/b/c/d/h.txt": "aa", "a/dup": "bb", "dup": "bb",
+         "zero": "", "a/b/zero2": "", "one/only": "cc"},
+    ]
+    b_items += run_build_stream(ctx, audit_dirs, per_dir=ctx.n(1, 6), all_flags=True)
+    if ctx.tier == "thorough":
+        # a real directory with 1000+ files: two builds (sequential, pool) and the store / index routes
+        big_dir = {f"d{i % 23}/s{i % 4}/f{i:04d}": "%04x" % i if i % 50 else "" for i in range(1050)}
+        b_items += run_build_stream(ctx, [big_dir], per_dir=1)
+        audit_dirs.append(big_dir)
     route_specs = [({}, ()), ({}, ("e", "f/g")),
                    ({"a": "610a", "z": "", "sub/b": "620a", "sub/c": "630a", "sub/deep/d": "640a"}, ()),
                    ({"d/x": "01", "d.e/y": "02", "top": "03"}, ("d/empty",))]
     route_specs += [(c["files"], tuple(c.get("empty_dirs", ()))) for c in corpus if c.get("kind") == "routes"]
-    route_specs += [(f, ()) for f in dirs[4:]]
+    route_specs += [(f, ()) for f in audit_dirs + dirs[4:]]
     run_routes_stream(ctx, route_specs)
+
+    undecodable_name_observation(ctx)
+    foreign_algorithm_observation(ctx)
 
     md5_items, json_items = run_base_stream(ctx, ctx.n(24, 150), ctx.n(40, 400))
 
@@ -1443,6 +1830,7 @@ def run(ctx):
     ctx.correspond("md5", IMPORTS, "list N", "fun b => VB (md5_hex b)", md5_items, shard=40)
     ctx.correspond("json", IMPORTS, "jdoc", JSON_MODEL, json_items, shard=100)
     ctx.extra["exhaustive"] = False
+    ctx.extra["input_dimensions"] = dict(sorted(DIM.items()))
 
 
 def replay_case(ctx, case):
@@ -1465,7 +1853,9 @@ def replay_case(ctx, case):
             work = ctx.fresh("replay")
             impl.mk_tree(os.path.join(work, "src"), {r: _content(c) for r, c in files.items()})
             obs = run_build(ctx, files, cfg, work, {})
-            res[json.dumps(cfg, sort_keys=True)] = obs["oid"]
+            w = want if cfg.get("flag") != "ignore" else impl.dir_oid(
+                [(r, impl.md5hex(_content(c))) for r, c in files.items() if r not in cfg.get("ignored", [])])
+            res[json.dumps(cfg, sort_keys=True)] = obs["oid"] if obs["oid"] != w else want
         bad = {k: v for k, v in res.items() if v != want}
         return {"canonical": want, "disagreeing": bad, "violates": bool(bad)}
     return {"violates": False}
